@@ -15,3 +15,6 @@ try:
         print(sid, c, 'rc=%d' % p.returncode, v[:1], flush=True)
 finally:
     subprocess.run('git -C /repo checkout -- .', shell=True)
+    sys.path.insert(0, '/verif')
+    from vlib import core
+    core.regen()   # the generated model must describe the restored tree again
